@@ -5,6 +5,8 @@ package multiplex
 import (
 	"bytes"
 	"fmt"
+	"github.com/cbeuw/Cloak/internal/common"
+	"github.com/cbeuw/Cloak/internal/vnet"
 	"io"
 	"net"
 	rtime "time"
@@ -301,6 +303,70 @@ func init() {
 		return rep
 	}})
 
+	// codec.recvlimit: "and vice versa" - whatever limit a session is configured with for what it
+	// sends, it accepts every valid message a peer may send (up to the protocol's 16640 bytes) through
+	// the record layer: senders with limits 16640 / 16401, receivers with 16401 / 16640 / 4096 / 600,
+	// full-size payloads with maximal and without padding, all methods.
+	vx.Register(&vx.Scenario{Name: "codec.recvlimit", Prop: "C04", Run: func(c *vx.Ctx) *vx.Report {
+		rep := &vx.Report{Job: c.Job, Engine: "enum", Outcomes: map[string]int64{}, Exhaustive: true}
+		for _, sendLimit := range []int{16640, 16401} {
+			for _, recvLimit := range []int{16401, 16640, 4096, 600} {
+				for _, m := range []byte{0, 1, 2, 3} {
+					for _, pad := range []int{0, 1000} {
+						o, _ := MakeObfuscator(m, rigKey)
+						snd := MakeSession(1, SessionConfig{Obfuscator: o, MsgOnWireSizeLimit: sendLimit, InactivityTimeout: 1000 * time.Hour})
+						rcv := MakeSession(1, SessionConfig{Obfuscator: o, MsgOnWireSizeLimit: recvLimit, InactivityTimeout: 1000 * time.Hour})
+						net := vnet.New()
+						a, b := net.Pair("rl", false)
+						snd.AddConnection(common.NewTLSConn(a))
+						rcv.AddConnection(common.NewTLSConn(b))
+						vrt.PlainRandInt = func(n int) int {
+							if pad >= n {
+								return n - 1
+							}
+							return pad
+						}
+						st, _ := snd.OpenStream()
+						data := make([]byte, snd.maxStreamUnitWrite) // one full frame, among the padded first ones
+						for i := range data {
+							data[i] = byte(i*13 + int(m))
+						}
+						_, werr := st.Write(data)
+						vrt.PlainRandInt = nil
+						largest := 0
+						for _, t := range net.Tap {
+							if len(t.Data) > largest {
+								largest = len(t.Data)
+							}
+						}
+						msg := ""
+						conn, err := rcv.Accept()
+						if werr != nil || err != nil {
+							msg = fmt.Sprintf("Write: %v, Accept at the receiver: %v (receiver closed: %v, %q)", werr, err, rcv.IsClosed(), rcv.TerminalMsg())
+						} else {
+							got := make([]byte, len(data))
+							if _, err := io.ReadFull(conn, got); err != nil || !bytes.Equal(got, data) {
+								msg = fmt.Sprintf("the receiver read %v (receiver closed: %v, %q)", err, rcv.IsClosed(), rcv.TerminalMsg())
+							}
+						}
+						rep.Executions++
+						rep.Transitions++
+						if msg != "" {
+							rep.Violations = append(rep.Violations, vx.Violation{Clause: "peer-messages-accepted", Sig: vx.Sig(c.Job, "peer-messages-accepted"),
+								Msg: fmt.Sprintf("sender limit %d, receiver limit %d, method %d, padding %d (largest record on the wire %d bytes): %s", sendLimit, recvLimit, m, pad, largest, msg)})
+							rep.Exhaustive = false
+						}
+						rep.Outcomes[fmt.Sprintf("send=%d recv=%d", sendLimit, recvLimit)]++
+						snd.Close()
+						rcv.Close()
+					}
+				}
+			}
+		}
+		rep.States = rep.Executions
+		return rep
+	}})
+
 	vx.RegisterJobs("C04", func(tier string) []vx.Job {
 		var jobs []vx.Job
 		methods := []string{"plain", "aes-256-gcm", "aes-128-gcm", "chacha20-poly1305"}
@@ -320,7 +386,7 @@ func init() {
 				jobs = append(jobs, vx.Job{Scenario: "codec.roundtrip", Params: vx.P("method", m, "lens", "1,2,255,256,max", "slice", "full", "allpads", "1"), Weight: 9})
 			}
 		}
-		jobs = append(jobs, vx.Job{Scenario: "codec.limits", Weight: 1}, vx.Job{Scenario: "codec.sessionlimit", Weight: 2})
+		jobs = append(jobs, vx.Job{Scenario: "codec.limits", Weight: 1}, vx.Job{Scenario: "codec.sessionlimit", Weight: 2}, vx.Job{Scenario: "codec.recvlimit", Weight: 2})
 		// the unordered Stream.Write path in front of the codec: every size up to the per-frame maximum
 		// must yield exactly one message within the limit, the first size beyond it none
 		st := "37"
